@@ -640,6 +640,9 @@ func fqRunPlan(plan fqPlan) (rep fqReport) {
 			}
 		}
 	}
+	// call by call: after a failed loop-side Pop()/Push() no Pop()/Push()/Head() within RetryInterval (faults5.go)
+	gapViol, _ := fqBackoffGaps(q.calls, fqRetry, plan)
+	rep.Violations = append(rep.Violations, gapViol...)
 	q.mu.Unlock()
 	if allowed := int(plan.win()/fqRetry) + 3; plan.Traffic && failedInBurst > allowed {
 		tag := ""
